@@ -3,10 +3,15 @@ from __future__ import annotations
 
 from htmltools import HTMLDependency, MetadataNode, Tag, TagList
 
+from engine import api
 from engine.api import harness, pick
 from oracles.trees import CATALOGUE, N_CHILD, child
 
 _PAIRS = [(0, "\n"), (2, "\r\n")]
+
+
+_ALL = list(range(N_CHILD))
+_FULL = [False]
 
 
 class _Ins:
@@ -50,28 +55,37 @@ def deps_in_order(x):
     return out
 
 
+_K1_QUICK = [0, 1, 3, 4, 6, 7, 8 + 0, 8 + 1, 8 + 5, 8 + 7, 18 + 1, 18 + 7]
+
+
 def _pre(B, root, k0, k1, mask, pr):
-    return 0 <= root <= 3 and 0 <= k0 < N_CHILD and 0 <= k1 < N_CHILD and 0 <= mask < B["M"] and 0 <= pr <= 1
+    return 0 <= root <= 3 and 0 <= k0 < N_CHILD and 0 <= k1 < (N_CHILD if B["FULL"] else len(_K1_QUICK)) and 0 <= mask < B["M"] and 0 <= pr <= 2
 
 
-_MASKS = [0b1, 0b10, 0b100, 0b1000, 0b11, 0b101010, 0b111111111111, 0b10000, 0b100000, 0b110000, 0b1000000, 0b011011011011]
+_MASKS = [0b111111111111, 0b1, 0b101010, 0b10, 0b100, 0b1000, 0b11, 0b10000, 0b100000, 0b110000, 0b1000000, 0b011011011011]
 
 
-@harness("C07", pre=_pre, bounds={"quick": {"M": 6}, "thorough": {"M": 12}},
+@harness("C07", pre=_pre, bounds={"quick": {"M": 4, "FULL": False}, "thorough": {"M": 12, "FULL": True}},
          shard=lambda B: [{"root": r, "k0": k} for r in range(4) for k in range(N_CHILD)],
          sel=["root: block / inline / void (br) / list", "k0, k1: any catalogue child (valid nesting or not)",
               "mask: which insertion points (before/after every child at every level, incl. only-child and several in a row) get a metadata node",
-              "pr: (indent, eol)"],
+              "pr: get_html_string(0, LF) / get_html_string(2, CRLF) / render()"],
          targets=["htmltools._core.Tag.get_html_string", "htmltools._core.TagList.get_html_string", "htmltools._core.TagList.get_dependencies"],
          timeout={"quick": 200, "thorough": 1500})
 def h_meta_invisible(root: int, k0: int, k1: int, mask: int, pr: int) -> bool:
+    _FULL[0] = bool(api.CURRENT.get("FULL"))
+    i0 = pick(k0, _ALL)
+    i1 = pick(k1, _ALL) if _FULL[0] else pick(k1, _K1_QUICK)
+    return api.concrete(_body, api.conc(root, 0, 3), i0, i1, pick(mask, _MASKS), api.conc(pr, 0, 2))
+
+
+def _body(root: int, i0: int, i1: int, maskval: int, pr: int) -> bool:
     kids = []
-    for i, k in enumerate((k0, k1)):
-        c = child(k if isinstance(k, int) and False else pick(k, list(range(N_CHILD))), i)
-        if c is not None and CATALOGUE[pick(k, list(range(N_CHILD)))][0] != "meta":
+    for i, idx in enumerate((i0, i1)):
+        c = child(idx, i)
+        if c is not None and CATALOGUE[idx][0] != "meta":
             kids.append(c[0])
-    indent, eol = pick(pr, _PAIRS)
-    ins = _Ins(pick(mask, _MASKS))
+    ins = _Ins(maskval)
     if root == 3:
         base = TagList(*kids)
         plus_kids = []
@@ -93,10 +107,13 @@ def h_meta_invisible(root: int, k0: int, k1: int, mask: int, pr: int) -> bool:
         plus = with_meta(base, ins)
         base_deps = deps_in_order(base)
         plus_deps = deps_in_order(plus)
-    if plus.get_html_string(indent, eol) != base.get_html_string(indent, eol):
-        return False
-    if plus.render()["html"] != base.render()["html"]:
-        return False
+    if pr == 2:
+        if plus.render()["html"] != base.render()["html"]:
+            return False
+    else:
+        indent, eol = _PAIRS[1] if pr == 1 else _PAIRS[0]
+        if plus.get_html_string(indent, eol) != base.get_html_string(indent, eol):
+            return False
     # they affect only the dependency list: exactly the dependencies present, in document order
     got = plus.get_dependencies(dedup=False)
     if len(got) != len(plus_deps):
